@@ -346,7 +346,10 @@ def analyse(case, r_fault, r_clean):
             # open finding C14-callback-raise-stops-others: a raising callback may stop the remaining ones
             # a task cancelled again while one of its callbacks is suspended: whether the remaining callbacks still run
             # is not specified; a callback that changes the callbacks of its own (already ended) task likewise
-            loose = target in r["cb_cancelled"] or "cb_mod" in names
+            # (any cancellation counts - the injected fault or a parent's task.cancel may land there too: the suspending
+            # callback began and never reached its end)
+            interrupted = {c[3].get("tag") for c in cbs if c[1] == "sleep"} - {x[1][2] for x in r["recs"] if x[1][0] == "cbend"}
+            loose = target in r["cb_cancelled"] or target in interrupted or "cb_mod" in names
             for name, arg in m.items():
                 g = got.get((target, name), [])
                 if len(g) > 1 and not (loose and name == "cb1"):
